@@ -10,7 +10,7 @@
 #define WSF_ALLOC_GHOSTS g_alloc_ok, g_free_calls
 #define WSF_RAND_GHOSTS g_rn
 #define WSF_FIN_GHOSTS g_fn
-#define WSF_CTL_GHOSTS g_cl
+#define WSF_CTL_GHOSTS g_cl.ctl_calls, g_cl.ctl_op, g_cl.ctl_len /* fields only: ws_msg_init_control is replaced inside callers that also watch g_cl.close_* */
 #define WSF_CLOSE_GHOSTS g_cl
 #define WSF_TX_GHOSTS g_tx
 #define WSF_RD_GHOSTS g_rd
@@ -75,6 +75,64 @@ __CPROVER_ensures((RV != 0 || ws->server) ==> g_rand_calls == OLD(g_rand_calls))
 ;
 #undef CF
 
+/* ---- 2. sending side: frame the next piece of a message (RFC 6455 5.2, 5.4) ----
+ * The data to send is the scatter/gather vector of frame->aio (what is left of
+ * the message); ws->fragsize (NNG_OPT_WS_SENDMAXFRAME, 0 = no limit) caps the
+ * payload of one frame.  Message mode: the message continues in further frames
+ * (FIN clear, later frames CONT); stream mode: every frame is a message of its
+ * own, the submitter sees a partial write. */
+#define PT_L(A, i) ((i) < (A)->a_nio ? (A)->a_iov[i].iov_len : (size_t) 0)
+#define PT_P1(A) (PT_L(A, 0))
+#define PT_P2(A) (PT_P1(A) + PT_L(A, 1))
+#define PT_P3(A) (PT_P2(A) + PT_L(A, 2))
+#define PT_P4(A) (PT_P3(A) + PT_L(A, 3))
+#define PT_P5(A) (PT_P4(A) + PT_L(A, 4))
+#define PT_P6(A) (PT_P5(A) + PT_L(A, 5))
+#define PT_P7(A) (PT_P6(A) + PT_L(A, 6))
+#define PT_TOTAL(A) (PT_P7(A) + PT_L(A, 7))
+#define PT_ENT_PRE(A, i) ((i) >= (A)->a_nio || ((A)->a_iov[i].iov_len <= (SIZE_MAX >> 4) && __CPROVER_is_fresh((A)->a_iov[i].iov_buf, (A)->a_iov[i].iov_len ? (A)->a_iov[i].iov_len : 1)))
+/* ghost equation for entry i, which starts at offset p of the concatenation */
+#define PT_ENT_EQ(A, i, p) (((i) < (A)->a_nio && g_k >= (p) && g_k - (p) < (A)->a_iov[i].iov_len) ==> g_b == ((const uint8_t *) (A)->a_iov[i].iov_buf)[g_k - (p)])
+#define PT_FRAG(A) (ws->fragsize > 0 && PT_TOTAL(A) > ws->fragsize)
+#define PT_LEN(A) (PT_FRAG(A) ? ws->fragsize : PT_TOTAL(A))
+#define PT_FINAL(A) (!PT_FRAG(A) || ws->isstream)
+#define PT_OPC(A) ((A)->a_count == 0 ? (ws->send_text ? WS_OP_TEXT : WS_OP_BIN) : WS_OP_CONT)
+#define FH(i) (frame->head[i])
+#define OA OLD(frame->aio)
+static int ws_frame_prep_tx(nni_ws *ws, ws_frame *frame)
+__CPROVER_requires(__CPROVER_is_fresh(ws, sizeof(*ws)) && __CPROVER_is_fresh(frame, sizeof(*frame)) && __CPROVER_is_fresh(frame->aio, sizeof(nni_aio)))
+/* the vector: at most NNI_AIO_MAX_IOV entries (nni_aio_set_iov), every entry points to a buffer (also when its length is 0), total fits size_t */
+__CPROVER_requires(frame->aio->a_nio <= NNI_AIO_MAX_IOV && PT_ENT_PRE(frame->aio, 0) && PT_ENT_PRE(frame->aio, 1) && PT_ENT_PRE(frame->aio, 2) && PT_ENT_PRE(frame->aio, 3) && PT_ENT_PRE(frame->aio, 4) && PT_ENT_PRE(frame->aio, 5) && PT_ENT_PRE(frame->aio, 6) && PT_ENT_PRE(frame->aio, 7))
+__CPROVER_requires(ws->fragsize <= NNI_MAXSZ)
+/* stream mode: one frame per submitted write */
+__CPROVER_requires(ws->isstream ==> frame->aio->a_count == 0)
+/* payload buffer of the frame: none yet (new frame) or the block of asize bytes obtained for the previous piece */
+__CPROVER_requires((frame->asize == 0 && frame->adata == NULL && frame->buf == NULL) || (frame->asize > 0 && __CPROVER_is_fresh(frame->adata, frame->asize) && __CPROVER_pointer_in_range_dfcc(frame->adata, frame->buf, frame->adata)))
+/* ghost equation: g_b is byte g_k of the concatenation of the vector entries */
+__CPROVER_requires(g_eq == WSF_EQ_TX ==> (PT_ENT_EQ(frame->aio, 0, 0) && PT_ENT_EQ(frame->aio, 1, PT_P1(frame->aio)) && PT_ENT_EQ(frame->aio, 2, PT_P2(frame->aio)) && PT_ENT_EQ(frame->aio, 3, PT_P3(frame->aio)) && PT_ENT_EQ(frame->aio, 4, PT_P4(frame->aio)) && PT_ENT_EQ(frame->aio, 5, PT_P5(frame->aio)) && PT_ENT_EQ(frame->aio, 6, PT_P6(frame->aio)) && PT_ENT_EQ(frame->aio, 7, PT_P7(frame->aio))))
+__CPROVER_assigns(__CPROVER_object_whole(frame), WSF_ALLOC_GHOSTS, WSF_RAND_GHOSTS; frame->asize > 0: __CPROVER_object_whole(frame->adata))
+__CPROVER_frees(frame->adata)
+__CPROVER_ensures(RV == 0 || RV == NNG_ENOMEM)
+__CPROVER_ensures(frame->aio == OLD(frame->aio))
+/* out of memory: the frame owns no payload buffer any more (it can be released as a plain struct) */
+__CPROVER_ensures(RV != 0 ==> (frame->asize == 0 && frame->adata == NULL && g_alloc_ok == OLD(g_alloc_ok) && PT_LEN(OA) > OLD(frame->asize)))
+/* payload length = what is left, capped by the fragment size */
+__CPROVER_ensures(RV == 0 ==> (frame->len == PT_LEN(OA) && WS_PAYLEN(FH) == PT_LEN(OA) && !WS_LEN_SHORT(FH)))
+/* FIN iff nothing remains (message mode) / always (stream mode); RSV clear; opcode: TEXT/BINARY for the first frame of a message, CONT afterwards */
+__CPROVER_ensures(RV == 0 ==> (WS_FIN(FH) == PT_FINAL(OA) && frame->final == PT_FINAL(OA) && WS_RSV(FH) == 0 && WS_OPC(FH) == PT_OPC(OA) && (unsigned) frame->op == PT_OPC(OA)))
+/* minimal length encoding */
+__CPROVER_ensures(RV == 0 ==> (WS_LEN7(FH) == WS_TX_LEN7(PT_LEN(OA))))
+/* MASK bit and the 4 mask bytes present iff we are the client */
+__CPROVER_ensures(RV == 0 ==> (WS_MASKED(FH) == !ws->server && frame->masked == !ws->server && frame->hlen == WS_TX_HLEN(PT_LEN(OA), !ws->server) && frame->hlen == WS_HLEN(FH)))
+__CPROVER_ensures((RV == 0 && !ws->server) ==> (g_rand_calls == OLD(g_rand_calls) + 1 && WSF_BE32(frame->mask) == g_rand_last && frame->head[frame->hlen - 4] == frame->mask[0] && frame->head[frame->hlen - 3] == frame->mask[1] && frame->head[frame->hlen - 2] == frame->mask[2] && frame->head[frame->hlen - 1] == frame->mask[3]))
+__CPROVER_ensures((RV != 0 || ws->server) ==> g_rand_calls == OLD(g_rand_calls))
+/* the payload buffer: the old block when it is big enough, else a new block of exactly the payload size (old one released) */
+__CPROVER_ensures((RV == 0 && PT_LEN(OA) > 0 && OLD(frame->asize) >= PT_LEN(OA)) ==> (frame->asize == OLD(frame->asize) && frame->adata == OLD(frame->adata) && frame->buf == frame->adata && g_alloc_ok == OLD(g_alloc_ok) && g_free_calls == OLD(g_free_calls)))
+__CPROVER_ensures((RV == 0 && PT_LEN(OA) > 0 && OLD(frame->asize) < PT_LEN(OA)) ==> (frame->asize == PT_LEN(OA) && __CPROVER_is_fresh(frame->adata, PT_LEN(OA)) && frame->buf == frame->adata && g_alloc_ok == OLD(g_alloc_ok) + 1 && g_free_calls == OLD(g_free_calls) + (OLD(frame->asize) > 0 ? 1 : 0)))
+/* payload = the first len bytes of the data, XORed with the mask on the client (5.3) */
+__CPROVER_ensures((RV == 0 && g_eq == WSF_EQ_TX && g_k < PT_LEN(OA)) ==> frame->buf[g_k] == (uint8_t) (ws->server ? g_b : (g_b ^ frame->mask[g_k & 3])))
+;
+
 /* ---- fail / close the connection (RFC 6455 7.1.2, 7.1.7) ---------------- */
 /* a well-formed CLOSE frame carrying the 2-byte status code (g_b = code byte g_k) */
 #define CLF_H(f) (f)->head
@@ -87,6 +145,11 @@ __CPROVER_ensures((RV != 0 || ws->server) ==> g_rand_calls == OLD(g_rand_calls))
 static void ws_close(nni_ws *ws, uint16_t code)
 __CPROVER_requires(__CPROVER_is_fresh(ws, sizeof(*ws)) && WSF_LISTS_PRE(ws) && WSF_Q_OK(g_recvq))
 __CPROVER_requires(WSF_TXQ_OK)
+#ifndef WSF_CLOSE_SUMMARY
+/* environment invariant of the transmit queue: its first member is a real frame (stated only where the
+ * contract is ENFORCED; where ws_close is replaced the invariant is not re-checked: see "assumes") */
+__CPROVER_requires(g_txq.n == 0 || __CPROVER_is_fresh(g_txq.head, sizeof(ws_frame)))
+#endif
 /* ghost equation: g_b is byte g_k of the big-endian status code */
 __CPROVER_requires(g_eq == WSF_EQ_CTL ==> ((g_k == 0 ==> g_b == (uint8_t) (code >> 8)) && (g_k == 1 ==> g_b == (uint8_t) code)))
 __CPROVER_assigns(g_recvq, WSF_FIN_GHOSTS, WSF_CLOSE_GHOSTS;
@@ -239,7 +302,7 @@ static void ws_read_frame_cb(nni_ws *ws, ws_frame *frame)
 __CPROVER_requires(__CPROVER_is_fresh(ws, sizeof(*ws)) && WSF_LISTS_PRE(ws) && WSF_Q_OK(g_recvq) && ws->ready)
 __CPROVER_requires(__CPROVER_is_fresh(frame, sizeof(ws_frame)) && __CPROVER_pointer_in_range_dfcc(frame, ws->rxframe, frame) && g_the_frame == frame)
 /* bound of the frame queue model: at most WSF_K-1 frames are queued before this one */
-__CPROVER_requires(g_rxq.n < WSF_K && WSF_TXQ_OK && WSF_RXQ_PRE)
+__CPROVER_requires(g_rxq.n < WSF_K && WSF_TXQ_OK && WSF_RXQ_PRE && (g_txq.n == 0 || __CPROVER_is_fresh(g_txq.head, sizeof(ws_frame))))
 __CPROVER_requires(g_eq == 0 || g_eq == WSF_EQ_RX)
 /* the decoded opcode field holds bits 0-6 of the first header byte */
 __CPROVER_requires(frame->aio == NULL && (unsigned) frame->op <= 0x7fu && WSF_PAYLOAD_PRE(frame))
@@ -321,7 +384,7 @@ static void ws_read_cb(void *arg)
 __CPROVER_requires(__CPROVER_is_fresh(arg, sizeof(nni_ws)) && WSF_LISTS_PRE(WS) && VP_NO_LOCK_HELD && WS->ready && WSF_LIMITS(WS))
 __CPROVER_requires(WSF_Q_OK(g_recvq))
 /* bound of the frame queue model: at most WSF_K-1 frames are queued before this one */
-__CPROVER_requires(g_rxq.n < WSF_K && WSF_TXQ_OK && WSF_RXQ_PRE)
+__CPROVER_requires(g_rxq.n < WSF_K && WSF_TXQ_OK && WSF_RXQ_PRE && (g_txq.n == 0 || __CPROVER_is_fresh(g_txq.head, sizeof(ws_frame))))
 /* invariant of the reassembly queue in message mode: what is queued was admitted under recvmax; g_u64 names the sum */
 __CPROVER_requires((!WS->isstream && WS->recvmax > 0) ==> (RXQ_L0 <= WS->recvmax && RXQ_L1 <= WS->recvmax && RXQ_SUM <= WS->recvmax))
 __CPROVER_requires(g_u64 == RXQ_SUM)
